@@ -102,11 +102,11 @@ def check_case(ctx, case):
     s = S.from_json(case["spec"])
     mode = case.get("mode", "tree")
     names = sorted(S.variables(s))
-    if not C.varfree_in_scope(s):
+    pts = [S.point_from_json(pj) for pj in case["points"]]
+    if not C.tree_in_scope(s, pts):
         ctx.count("inputs_out_of_scope")
         return
     ctx.count("cases")
-    pts = [S.point_from_json(pj) for pj in case["points"]]
     # decisive domain points of the original
     dom = []
     for p in pts:
